@@ -1,4 +1,5 @@
 """C04 — Each target runs at most once, after its dependencies."""
+import json
 import os
 import sys
 sys.path.insert(0, os.path.join(os.path.dirname(os.path.dirname(os.path.abspath(__file__))), "harness", "runner"))
@@ -7,7 +8,7 @@ import rcommon
 META = {
     "property_id": "C04",
     "technique": "Coq invariant proofs over an interleaving model of runner/runner.go + trace acceptance of hook logs of the "
-                 "real runner by the model + black-box call counting",
+                 "real runner by the model (free-running jittered schedules and forced pile-up schedules) + black-box call counting",
     "level_text": "Theorems (Coq, all dependency graphs incl. duplicates/failing/unknown targets, all schedules, all limits): a "
                   "goroutine is created only by the atomic Idle->Running transition and at most once per label; LoadTarget, "
                   "Evaluate and the body run at most once per label; a final status never changes; every non-cyclic result handed "
@@ -16,21 +17,148 @@ META = {
                   "to runner.go by replaying the hook logs of real runs through it (start.run only from Idle, wait.end only when "
                   "the dependency is final and with its actual outcome, finishing statuses equal). Direct oracles: "
                   "LoadTarget/Evaluate/body counts <= 1, dependency finished before the dependent continues, result error "
-                  "identical to the dependency's own error value, Run's error identical to the root's.",
+                  "identical to the dependency's own error value, Run's error identical to the root's. The atomicity of start()'s "
+                  "test-and-set (one model step) is exercised under forced contention: pile-up builds in which all requesters of a "
+                  "label are parked at the first statement of start() and released together (all limits, incl. 1), and rounds of "
+                  "k goroutines leaving a spin barrier into start() of one idle record.",
     "level_note": "Trusted: Coq kernel; the hook dispatcher; sync.Mutex/sync.Cond/sync.Map semantics (getTarget's LoadOrStore is "
                   "modelled as label identity; a broken LoadOrStore shows up as two goroutines for one label in the log). "
                   "The model covers dawn's usage (one EvaluateTargets call per target, target.go) — not arbitrary Engine clients. "
-                  "Schedules are sampled (seeded jitter), not enumerated.",
+                  "Schedules are sampled (seeded jitter) or forced (pile-up at a target's mutex), not enumerated; a check-then-act "
+                  "window that opens only after the first lock acquisition of start() is reached by the spin-barrier rounds "
+                  "with a probability per round, not deterministically.",
     "design_ref": "DESIGN.md §6 C04, Appendix B",
 }
 
 SIZES = {"quick": (300, 3, 1500), "thorough": (4000, 15, 12000)}
+# forced-contention family: (random graphs, repetitions of the fixed graphs, direct rounds)
+PILEUP = {"quick": (40, 1, 20000), "thorough": (600, 6, 300000)}
+PILEUP_FILE = os.path.join(rcommon.HARNESS, "overlay/runner/zz_verif_c04_pileup_test.go")
+
+
+def run_pileup(ctx):
+    """Simultaneous requesters of one target: pile-up builds (hook logs replayed by the model) + direct start() rounds."""
+    nrand, repeat, rounds = PILEUP["quick" if ctx.quick() else "thorough"]
+    out = os.path.join(ctx.tmp, "c04_pileup.jsonl")
+    seed = ctx.seed * 100 + 4
+    env = {"VERIF_OUT": out, "VERIF_SEED": str(seed), "VERIF_PILEUP_RANDOM": str(nrand), "VERIF_PILEUP_REPEAT": str(repeat),
+           "VERIF_DIRECT_ROUNDS": str(rounds), "VERIF_TIMEOUT_MS": "10000"}
+    how = ("go test -tags verif -overlay (harness/overlay/runner/zz_verif_c04c05c09_test.go + zz_verif_c04_pileup_test.go) "
+           "-run ^TestVerifC04Pileup$ ./runner; VERIF_SEED=%d VERIF_PILEUP_RANDOM=%d VERIF_PILEUP_REPEAT=%d VERIF_DIRECT_ROUNDS=%d"
+           % (seed, nrand, repeat, rounds))
+    rc, o = ctx.go_overlay_test("runner", {"zz_verif_c04c05c09_test.go": rcommon.HARNESS_FILE,
+                                           "zz_verif_c04_pileup_test.go": PILEUP_FILE},
+                                "^TestVerifC04Pileup$", env, timeout=1500)
+    if rc != 0 or not os.path.exists(out):
+        ctx.log(o[-3000:])
+        ctx.violation("C04 pile-up harness failed to build or run against /repo",
+                      {"theorem_or_correspondence": "C04 harness (runner, simultaneous requesters)", "output": o[-3000:]},
+                      found_input=False)
+        return
+    runs, info, oracles, doracles, direct, aborted = [], {}, [], [], {}, None
+    for line in open(out):
+        line = line.rstrip("\n")
+        if line.startswith("{"):
+            runs.append(json.loads(line))
+        elif line.startswith("PILEUP\t"):
+            p = json.loads(line.split("\t", 1)[1])
+            info[p["run"]] = p
+        elif line.startswith("ORACLE\t"):
+            f = line.split("\t")
+            oracles.append({"oracle": f[1], "run": int(f[2]), "detail": f[3]})
+        elif line.startswith("DORACLE\t"):
+            f = line.split("\t")
+            doracles.append({"oracle": f[1], "detail": f[2], "round": json.loads(f[3])})
+        elif line.startswith("DIRECT\t"):
+            direct = json.loads(line.split("\t", 1)[1])
+        elif line.startswith("ABORTED\t"):
+            aborted = int(line.split("\t")[1])
+    byid = {r["run"]: r for r in runs}
+    mine = [x for x in oracles if rcommon.ORACLE_OWNER.get(x["oracle"]) == "C04" or x["oracle"] == "terminates"]
+
+    def schedule(rid):
+        p = info.get(rid) or {}
+        return {"family": "pile-up build: the harness keeps the mutexes of the records of `held` from before the build; at each "
+                          "quiescence it releases one of them, so that all targets listed under `requesters` enter "
+                          "start(label) together",
+                "hold_policy": p.get("hold_policy"), "pick_policy": p.get("pick_policy"), "held": p.get("held"),
+                "releases": p.get("releases"), "fallback": p.get("fallback")}
+
+    for x in mine[:4]:
+        r = byid.get(x["run"])
+        ctx.violation("implementation violates C04 oracle %s under simultaneous requesters: %s" % (x["oracle"], x["detail"]),
+                      {"oracle": x["oracle"], "detail": x["detail"], "config": rcommon.describe(r) if r else None,
+                       "schedule": schedule(x["run"]), "how": how, "oracle_failures_in_this_family": len(mine),
+                       "event_log": r["events"][:400] if r else None})
+    for x in doracles[:3]:
+        ctx.violation("implementation violates C04 oracle %s: %s" % (x["oracle"], x["detail"]),
+                      {"oracle": x["oracle"], "detail": x["detail"],
+                       "schedule": {"family": "direct simultaneous start: `simultaneous_callers` goroutines leave a spin barrier and "
+                                              "call start() on the same idle record of a fresh runner (via = how they obtain the "
+                                              "record), then `late_callers` more after the target finished",
+                                    "round": x["round"]},
+                       "how": how + " (schedule-dependent: the round number is where it showed in this run; %s of %s rounds failed)"
+                              % (direct.get("failures"), direct.get("rounds"))})
+
+    okc, rejected, nev = rcommon.accept_traces(ctx, runs)
+    if not okc:
+        ctx.log("coq evaluation failed (pile-up traces)", rejected[:1])
+        ctx.violation("trace acceptance of the pile-up runs could not be evaluated",
+                      {"theorem_or_correspondence": "Runner/Run.v evaluation", "log": rejected[:2]}, found_input=False)
+        return
+    done_runs = [r for r in runs if not (r["hung"] or r["stuck"])]
+    if rejected:
+        r, idx, why = rejected[0]
+        ctx.violation("model rejects %d of %d traces of pile-up builds, first: run %d (%s, limit %d): %s" % (
+            len(rejected), len(done_runs), r["run"], r["graph"], r["k"], why),
+            {"theorem_or_correspondence": "trace acceptance Runner/Run.v <-> runner/runner.go", "why": why,
+             "rejected_traces": len(rejected), "config": rcommon.describe(r), "schedule": schedule(r["run"]), "how": how,
+             "event_log_prefix": r["events"][:max(0, idx) + 30]}, found_input=bool(mine or doracles))
+    if aborted is not None and not mine:
+        ctx.violation("pile-up harness aborted after a hang in run %d" % aborted,
+                      {"config": rcommon.describe(byid[aborted]), "schedule": schedule(aborted), "how": how})
+
+    # measured coverage: how many requesters entered start() of one idle target together
+    sizes, fallbacks, nrel = {}, 0, 0
+    for p in info.values():
+        fallbacks += 1 if p.get("fallback") else 0
+        for rel in p["releases"]:
+            nrel += 1
+            key = str(len(rel["requesters"]))
+            sizes[key] = sizes.get(key, 0) + 1
+    limits = {}
+    for r in runs:
+        if any(len(rel["requesters"]) >= 2 for rel in info.get(r["run"], {}).get("releases", [])):
+            limits["k=%d" % r["k"]] = limits.get("k=%d" % r["k"], 0) + 1
+    multi = sum(v for k, v in sizes.items() if int(k) >= 2)
+    ctx.coverage["evaluations"] += len(runs) + int(direct.get("rounds", 0))
+    ctx.coverage["distinct_nontrivial"] += multi
+    ctx.coverage["rule"] += (
+        " Simultaneous requesters (C04 only): %d pile-up builds (%d graphs with shared dependencies: fan-in of 2..16 on an ok / "
+        "failing / unknown leaf, crossed request orders, shared sub-dependencies, root competing with its dependents, duplicates, "
+        "fan-in on a cycle member, plus the shared corpus and %d random graphs) x limits {1,2,3,4,16} x hold policy "
+        "{shared labels, all labels, seeded subset} x release policy {most requesters, seeded}: %d releases, %d of them with >= 2 "
+        "requesters entering start() of the idle target together (counted into distinct); hook logs (%d events) replayed by the "
+        "model. Plus %d rounds of 2..16 goroutines leaving a spin barrier into start() of one idle record (then 0..3 callers "
+        "after it finished), target ok / failing / unknown, on %s CPUs."
+        % (len(runs), len({r["graph"] for r in runs if not r["graph"].startswith("rand")}), nrand, nrel, multi, nev,
+           direct.get("rounds", 0), direct.get("cpus")))
+    ctx.coverage["correspondence"]["pileup"] = {
+        "cases": len(done_runs), "events": nev, "mismatches": len(rejected), "releases": nrel,
+        "requesters_released_together": dict(sorted(sizes.items(), key=lambda kv: int(kv[0]))),
+        "runs_with_a_shared_pileup_by_limit": limits, "fallback_releases": fallbacks,
+        "oracle_failures": len(oracles) + len(doracles), "direct": direct}
+    ctx.log("pile-up: runs=%d events=%d rejected=%d releases=%d (>=2 requesters: %d) fallbacks=%d oracle_failures=%d; "
+            "direct rounds=%s failures=%s" % (len(runs), nev, len(rejected), nrel, multi, fallbacks, len(oracles),
+                                              direct.get("rounds"), direct.get("failures")))
 
 
 def run(ctx):
     rcommon.run_check(ctx, "C04", "Runner/Props_C04.v", SIZES,
                       "C04 oracles: LoadTarget/Evaluate/body call counts <= 1 per label; a dependent continues only after its "
                       "dependencies finished; the result handed over is the dependency's own error value; Run's result is the root's.")
+    # at-most-once under forced contention: all requesters of a label enter start()'s test-and-set together
+    run_pileup(ctx)
     # at-most-once at project level: the runner keys targets by label string, LoadTarget resolves labels -- whole builds of real
     # projects (incl. one target requested under two spellings), body executions counted from the execution log
     from checks.engine_common import run_engine_oracles
